@@ -1,5 +1,6 @@
 import TextxVerif.Proofs.Imp
 import TextxVerif.Proofs.ImpErr
+import TextxVerif.Proofs.ImpOpen
 /-!
 # C25 — grammar imports resolve rules in the documented order
 
@@ -551,6 +552,29 @@ theorem C25_load_iff (fs : FS) (files : List Ns) (hfs : ∀ x, (fs x).isSome →
           · simp [hm]
         simp only [hd1, hdef, Bool.and_self]
 
+/-- **Exactly the connected files are opened, each once.**  After a successful load the files
+handed to the loader are precisely the main file and the files reachable from it through import
+statements — whatever the import graph —, no file is opened twice, a namespace exists exactly
+for those files, and every class ever created belongs to one of them. -/
+theorem C25_opened_exact {fs : FS} {fuel : Nat} {main : Seg} {st : St}
+    (h : loadMain fs fuel main = .ok st) :
+    (∀ x, x ∈ st.opened ↔ Connected fs main x) ∧ st.opened.Nodup ∧
+    (∀ x, (st.nss x).isSome = true ↔ Connected fs main x) ∧
+    (∀ (c : Nat) (x : Ns) (n : Name), st.classes[c]? = some (x, n) → Connected fs main x) := by
+  obtain ⟨hinv, _, _⟩ := loadMain_inv h
+  obtain ⟨hko, hoc⟩ := loadMain_opened h
+  have hck := loadMain_connected_key h
+  refine ⟨fun x => ⟨hoc x, fun hx => hko x (hck x hx)⟩, hinv.openedNodup,
+    fun x => ⟨fun hx => hoc x (hko x hx), hck x⟩, ?_⟩
+  intro c x n hc
+  have hmem : n ∈ clsNames st.classes x := mem_clsNames.2 (List.mem_of_getElem? hc)
+  have hk : isKey st x := by
+    apply Classical.byContradiction
+    intro hk
+    rw [hinv.nonkey x hk] at hmem
+    simp at hmem
+  exact hoc x (hko x hk)
+
 /-! ### Non-vacuity of the error side -/
 
 /-- the hypotheses of `C25_loads` / `C25_loads_check` / `C25_load_iff` are met by `exFS`
@@ -682,6 +706,12 @@ theorem C25_unexisting_sound_full_false : ¬ C25_unexisting_sound_full := by
 their own rules; every reference is `ResolvableNow` on every path, and the tree loads. -/
 example : (loadMain (fun ns => if ns = ["m"] then some ⟨[["b"]], [⟨"Main", [⟨none, "Main"⟩]⟩]⟩
     else if ns = ["b"] then some ⟨[["m"]], [⟨"B", [⟨none, "B"⟩, ⟨some ["b"], "B"⟩]⟩]⟩ else none) 3 "m").toOption.isSome = true := by
+  decide +kernel
+
+/-- `C25_opened_exact` on `exFS`: the four connected files are opened, each once (evaluated above:
+`opened = [m, b, sub.c, sub.d]`), and a file nobody imports is not: -/
+example : (loadMain (fun ns => if ns = ["m"] then some ⟨[], [⟨"Main", []⟩]⟩
+    else if ns = ["other"] then some ⟨[], [⟨"X", []⟩]⟩ else none) 3 "m").toOption.map (·.opened) = some [["m"]] := by
   decide +kernel
 
 end Imp
